@@ -83,7 +83,7 @@ pub fn check(v: &View, vd: &mut Verdict) {
         }
         // the stopped callback is never cut short (a handler timeout is about handlers)
         if let Some(c) = v.cbs.iter().rev().find(|c| c.actor == a && c.cb == Cb::Stopped) {
-            let faulty = v.case.faults.iter().any(|f| matches!(f, Fault::StopPanic { .. } | Fault::CancelActor { .. }));
+            let faulty = v.case.faults.iter().any(|f| matches!(f, Fault::StopPanic { .. } | Fault::FinishPanic { .. } | Fault::CancelActor { .. }));
             if c.exit.is_none() && matches!(av.task_end, Some((_, crate::sim::TaskEnd::Done))) && !faulty {
                 vd.fail("C17/stopped_cut_short", format!("actor {a}: stopped() was entered at {} but never completed, yet the task ended normally (join handed out {:?})", c.enter, joins.first().and_then(|j| j.res.clone())));
             }
